@@ -117,6 +117,9 @@ def generate(repo):
 
 if __name__ == '__main__':
     import sys
+    if '--fallbacks' in sys.argv:
+        sys.argv.remove('--fallbacks')
+        gen_c01.force_fallbacks()
     text, items = generate(sys.argv[1] if len(sys.argv) > 1 else '/repo')
     print(text)
     for it in items:
